@@ -49,6 +49,8 @@ def filter_profile(pid, r):
     if pid in ("C01", "C03") and r.random() < 0.5:
         opts["arcs"] = True         # arcs are where "every sampled point" matters
     if pid == "C02" and r.random() < 0.5:
+        opts["at"] = True           # disable / enable windows: the position must keep being tracked
+    if pid == "C02" and r.random() < 0.5:
         regions = []
         cfg["regions"] = []
     if pid == "C07":
@@ -62,7 +64,11 @@ def filter_profile(pid, r):
     if pid == "C14":
         opts["at"] = True
         opts["at_junk"] = True
-        if r.random() < 0.5:
+        if r.random() < 0.25:
+            # patterns accepting an empty parameter text: the bare @-command triggers the action
+            cfg["at"] = [("ExcludeRegion", "^\\s*$", "disable_exclusion"), ("ExcludeRegion", "on", "enable_exclusion"),
+                         ("Other", "", "disable_exclusion")]
+        elif r.random() < 0.5:
             # unanchored custom patterns: `match` anchors them at the start of the parameters, a
             # pattern found later in the text must not trigger the action
             cfg["at"] = [("ExcludeRegion", "off", "disable_exclusion"), ("ExcludeRegion", "on", "enable_exclusion")]
@@ -295,7 +301,9 @@ def search_c16(pid, r, n, stats):
         rad = r.choice([0.2, 1.0, 3.3, 25.0, 500.0, r.uniform(0.2, 500)])
         a = r.uniform(0, 2 * math.pi)
         centre = (start[0] + rad * math.cos(a), start[1] + rad * math.sin(a))
-        sweep = r.choice([2 * math.pi, math.pi, math.pi / 2, r.uniform(0.001, 2 * math.pi)])
+        sweep = r.choice([2 * math.pi, math.pi, math.pi / 2, r.uniform(0.001, 2 * math.pi),
+                          # just short of a full turn: the end point lies within one unit of the start
+                          2 * math.pi - r.uniform(1e-3, min(1.0, 0.9 / rad))])
         cw = r.random() < 0.5
         stats["evaluations"] += 1
         stats["nontrivial"].add(zlib.crc32(repr((start, centre, sweep, cw)).encode()))
@@ -310,7 +318,7 @@ def search_c16(pid, r, n, stats):
         sx, sy = r.choice([30.0, 42.5]), r.choice([30.0, 55.0])
         oi, oj = r.choice([(rad2, 0.0), (-rad2, 0.0), (0.0, rad2), (0.0, -rad2), (3.0 * rad2 / 5, 4.0 * rad2 / 5)])
         cw2 = r.random() < 0.5
-        sw2 = r.choice([math.pi / 2, math.pi])
+        sw2 = r.choice([math.pi / 2, math.pi, 2 * math.pi - 0.05])      # the last: end point next to the start
         b0 = math.atan2(-oj, -oi)
         b1 = b0 + (-sw2 if cw2 else sw2)
         bm = b0 + (-sw2 if cw2 else sw2) / 2
@@ -389,6 +397,14 @@ def search_c19(pid, r, n, stats):
                 r.choice(["1", "1.5", "-2", ".5", "+1.", "", "10.25", "-0", "007", "1.", "+.5", "-12.", "3.", "", "0"])
             words.append(w)
         params = r.choice(["", " "]).join(words) if r.random() < 0.3 else " ".join(words)
+        if r.random() < 0.25:
+            # every letter a move handler reads, each with a value, then repeats: the last value wins
+            letters = list("XYZEF")
+            r.shuffle(letters)
+            ws = ["%s%s" % (c, r.choice(["1", "2.5", "30", "0.4", "1500"])) for c in letters]
+            ws += ["%s%s" % (r.choice("XYZEFxyzef"), r.choice(["35", "7", "0", "0.8", "-1", ""]))
+                   for _k in range(r.randint(1, 3))]
+            params = " ".join(ws)
         stats["evaluations"] += 1
         stats["nontrivial"].add(zlib.crc32(params.encode()))
         v = oracle_text.c19_reader(params)
